@@ -112,6 +112,9 @@ class Game(AsyncMode):
             else:
                 await self._rotate_players()
 
+        # a player add which is still held in player_adding must not complete after the game (or in the next one)
+        await self._no_player_adding_event.wait()
+
         await self._end_game()
 
     async def _run_ball(self, is_extra_ball=False):
